@@ -484,6 +484,28 @@ class ZoneFn:
             return pzf.elem_sym_of_desc(comps[int(comp)])
         return None
 
+    def _enumerate_source(self, op, depth=0):
+        """the operand an `enumerate()` was applied to, when the iterator operand (through borrows / by_ref / into_iter) is an Enumerate"""
+        if op['k'] not in ('copy', 'move') or depth > 8 or any(p['k'] != 'deref' for p in op['pl'].get('p', [])):
+            return None
+        d = self.single_def(op['pl']['l'])
+        if d is None:
+            return None
+        if d[0] == 'call' and d[2]['args']:
+            cal = d[2].get('callee') or ''
+            if cal == 'std::iter::Iterator::enumerate':
+                return d[2]['args'][0]
+            if cal in ('std::iter::IntoIterator::into_iter', 'std::iter::Iterator::by_ref'):
+                return self._enumerate_source(d[2]['args'][0], depth + 1)
+            return None
+        if d[0] == 'assign' and not d[2]['dst'].get('p'):
+            rv = d[2]['rv']
+            if rv['k'] == 'use' and rv['op']['k'] in ('copy', 'move'):
+                return self._enumerate_source(rv['op'], depth + 1)
+            if rv['k'] in ('ref', 'rawptr'):
+                return self._enumerate_source({'k': 'copy', 'pl': rv['pl']}, depth + 1)
+        return None
+
     def iter_components(self, op, depth=0):
         """containers behind an iterator operand: [c] for a plain iteration, [c1, c2] for c1.iter().zip(c2) (None where unknown)"""
         if op['k'] not in ('copy', 'move') or depth > 10:
@@ -711,6 +733,45 @@ class ZoneFn:
         if a2 is None or b2 is None:
             return None
         return (op, a2, b2, neg)
+
+    def closure_predicate_facts(self, cpath, caps, elem_sym):
+        """(facts when the closure's boolean is true, facts when it is false) in THIS body's terms, the closure's argument replaced by elem_sym;
+        covers predicates that are one comparison and those traced as sets of facts (`(0..L).contains(i)`, `a && b`)"""
+        czf = self.za.zf(cpath)
+        r = czf._trace_bool({'l': 0}, 0)
+        if r is None:
+            return None
+        if r[0] != 'FACTS':
+            pr = self.closure_predicate(cpath, caps, elem_sym)
+            if pr is None:
+                return None
+            op, a, b, neg = pr
+            tf, ff = self._cmp_facts(op, a, b)
+            return (ff, tf) if neg else (tf, ff)
+
+        def tr(t):
+            if t is None:
+                return None
+            if t[0] is None:
+                return t
+            if t[0] == 'p2':
+                return (elem_sym, t[1])
+            if t[0].startswith('cap') and t[0][3:].isdigit() and int(t[0][3:]) < len(caps):
+                return tadd(self.term_op(caps[int(t[0][3:])]), t[1])
+            return None
+
+        def trl(fs):
+            out = []
+            for (t1, t2) in fs:
+                a, b = tr(t1), tr(t2)
+                if a is None or b is None:
+                    return None
+                out.append((a, b))
+            return out
+        tf, ff = trl(r[1]), trl(r[2])
+        if tf is None or ff is None:
+            return None
+        return (tf, ff)
 
     def unstable(self, t):
         return t is not None and t[0] is not None and t[0].startswith('m')
@@ -997,6 +1058,10 @@ class ZoneFn:
                     elif rv['op']['k'] in ('copy', 'move'):
                         # payload of checked arithmetic on the same local
                         o = self._origin_call(rv['op']['pl']['l'])
+                        if o and (o[1].get('callee') or '') in ('std::option::Option::<T>::map', 'std::result::Result::<T, E>::map') and rv['op']['pl'].get('p'):
+                            pt = self._payload_term(rv['op']['pl'])
+                            if pt is not None:
+                                u = min(UMAX, self.sym_ub(pt[0]) + pt[1]) if pt[0] is not None else pt[1]
                         if o and (o[1].get('callee') or '').endswith(('::checked_sub', '::checked_div', '::checked_rem', '::saturating_sub')):
                             a = self.term_op(o[1]['args'][0])
                             if a is not None:
@@ -1179,6 +1244,18 @@ class ZoneFn:
         # component of the element of a zipped iteration: `for (a, b) in xs.iter().zip(ys)`
         tup = [p for p in pl['p'] if p['k'] == 'field' and not str(p.get('adt', '')).startswith(('std::option', 'core::option')) and p['n'].isdigit()]
         if cal == 'std::iter::Iterator::next' and tup and t['args']:
+            # `for (i, x) in items.enumerate()`: the first member of the item is a position, below the number of items
+            en = self._enumerate_source(t['args'][0])
+            if en is not None and int(tup[0]['n']) == 0 and len(tup) == 1:
+                key = ('payload', l, 'enum0')
+                if key in self._term:
+                    return self._term[key]
+                res = ('v%dn' % l, 0)
+                ln = self.iter_len(en)
+                if ln is not None:
+                    self.global_facts.append((('payload', l), tadd(res, 1), ln))
+                self._term[key] = res
+                return res
             comps = self.iter_components(t['args'][0])
             n = int(tup[0]['n'])
             if comps and len(comps) > 1 and n < len(comps):
@@ -1220,6 +1297,45 @@ class ZoneFn:
                             return tadd(self.term_op(ci[1][int(tt[0][3:])]), tt[1])
                         return None
                     chained = ((d0[2].get('callee') or '').split('::')[-1], tr(d0[2]['args'][0]), tr(d0[2]['args'][1]))
+        # `opt.map(|x| x / c)` (also `- c`, `% c`, `>> c`, or x itself): the payload is not above the payload of `opt`
+        if variant and variant[0] in ('Some', 'Continue', 'Ok') and chained is None and cal in ('std::option::Option::<T>::map', 'std::result::Result::<T, E>::map') \
+                and len(t['args']) == 2 and t['args'][0]['k'] in ('copy', 'move') and not t['args'][0]['pl'].get('p') and t['args'][1]['k'] in ('copy', 'move'):
+            ci = self.fd._closure_info(t['args'][1]['pl']['l'])
+            inner = self._payload_term({'l': t['args'][0]['pl']['l'], 'p': [{'k': 'downcast', 'v': 1, 'n': 'Some'}, {'k': 'field', 'n': '0', 'adt': 'std::option::Option::Some'}]})
+            if ci is not None and inner is not None and ci[0] in self.za.prog.bodies:
+                cb = self.za.prog.bodies[ci[0]]
+                shrinking = None
+
+                def cdefs(x):
+                    return [st for _b, st in cb.stmts() if st['k'] == 'assign' and st['dst']['l'] == x and not st['dst'].get('p')]
+
+                def is_item(o, depth=0):
+                    """the operand is the closure's argument (through plain copies)"""
+                    if o.get('k') not in ('copy', 'move') or o['pl'].get('p') or depth > 3:
+                        return False
+                    if o['pl']['l'] == 2:
+                        return True
+                    dd = cdefs(o['pl']['l'])
+                    return len(dd) == 1 and dd[0]['rv']['k'] == 'use' and is_item(dd[0]['rv']['op'], depth + 1)
+
+                def shrinks(x, depth=0):
+                    dd = cdefs(x)
+                    if len(dd) != 1 or depth > 3:
+                        return False
+                    rv = dd[0]['rv']
+                    if rv['k'] == 'use' and rv['op']['k'] in ('copy', 'move'):
+                        if is_item(rv['op']):
+                            return True
+                        # `(x - c).0` of the checked form the compiler emits
+                        return all(q['k'] == 'field' for q in rv['op']['pl'].get('p', [])) and shrinks(rv['op']['pl']['l'], depth + 1)
+                    return rv['k'] == 'binop' and rv['op'].replace('WithOverflow', '').replace('Unchecked', '') in ('Div', 'Rem', 'Sub', 'Shr') and is_item(rv['a'])
+                shrinking = shrinks(0)
+                if shrinking:
+                    res = ('v%dp' % l, 0)
+                    self.global_facts.append((('payload', l), res, inner))
+                    self.sym_le[res[0]] = inner
+                    self._term[key] = res
+                    return res
         if chained is not None:
             cal = '::' + chained[0]
         if variant and variant[0] in ('Some', 'Continue', 'Ok') and chained is None:
@@ -1700,8 +1816,18 @@ class ZoneFn:
                 return [(tadd(ix, 1), ln)]
             return None
         if tgt is None and (call.get('callee') or '') in ('std::convert::TryFrom::try_from', 'std::convert::TryInto::try_into'):
-            # slice -> array conversion succeeds iff the lengths agree
+            # an integer converted into a narrower unsigned type: it fits (`u8::try_from(dst.len())` succeeded: the length is at most 255)
             import re
+            full = call.get('callee_full') or ''
+            mi = re.match(r'^<(u8|u16|u32) as std::convert::TryFrom<(usize|u64|u32|u16)>>::try_from', full) \
+                or re.match(r'^<(usize|u64|u32|u16) as std::convert::TryInto<(u8|u16|u32)>>::try_into', full)
+            if mi and call['args']:
+                narrow = mi.group(1) if 'TryFrom' in full else mi.group(2)
+                v = self.term_op(call['args'][0])
+                if v is not None:
+                    return [(v, (None, {'u8': 255, 'u16': 65535, 'u32': 2 ** 32 - 1}[narrow]))]
+                return None
+            # slice -> array conversion succeeds iff the lengths agree
             m = re.search(r'\[[^;\]]+; (\w+)\]', call.get('callee_full') or '')
             if m and call['args'][0]['k'] in ('copy', 'move'):
                 n = m.group(1)
@@ -1793,12 +1919,10 @@ class ZoneFn:
         ci2 = self.fd._closure_info(x['args'][1]['pl']['l'])
         if es is None or ci2 is None:
             return None
-        pr = self.closure_predicate(ci2[0], ci2[1], es)
-        if pr is None:
+        pf = self.closure_predicate_facts(ci2[0], ci2[1], es)
+        if pf is None:
             return None
-        op, a, b, neg = pr
-        tf, ff = self._cmp_facts(op, a, b)
-        return tf if neg else ff
+        return pf[1]
 
     def _none_facts_of_helper(self, call):
         """a local search helper returned None: the facts its summary guarantees then, in this body's terms"""
@@ -1836,12 +1960,10 @@ class ZoneFn:
         ci = self.fd._closure_info(x['args'][1]['pl']['l'])
         if es is None or ci is None:
             return None
-        pr = self.closure_predicate(ci[0], ci[1], es)
-        if pr is None:
+        pf = self.closure_predicate_facts(ci[0], ci[1], es)
+        if pf is None:
             return None
-        op, a, b, neg = pr
-        tf, ff = self._cmp_facts(op, a, b)
-        return tf if neg else ff
+        return pf[1]
 
     def _trace_bool(self, pl, depth, _def=None):
         if depth > 8 or pl.get('p'):
@@ -1891,14 +2013,29 @@ class ZoneFn:
                         and o[1]['args'][1]['k'] in ('copy', 'move') and not o[1]['args'][1]['pl'].get('p'):
                     es = self.elem_sym_of_iter(o[1]['args'][0])
                     ci = self.fd._closure_info(o[1]['args'][1]['pl']['l'])
-                    pr = self.closure_predicate(ci[0], ci[1], es) if (es is not None and ci is not None) else None
-                    if pr is not None:
-                        op, a, b, neg = pr
-                        tf, ff = self._cmp_facts(op, a, b)
-                        none_facts = tf if neg else ff
+                    pf = self.closure_predicate_facts(ci[0], ci[1], es) if (es is not None and ci is not None) else None
+                    if pf is not None:
+                        none_facts = pf[1]
                         if cal.endswith('is_none'):
                             return ('FACTS', none_facts, [], False)
                         return ('FACTS', [], none_facts, False)
+            if cal in ('std::ops::Range::<Idx>::contains', 'std::ops::RangeTo::<Idx>::contains', 'std::ops::RangeFrom::<Idx>::contains') and len(x['args']) == 2:
+                # `(a..b).contains(&x)`: true means a <= x < b (false says nothing a difference bound can hold)
+                rg = x['args'][0]
+                if rg['k'] in ('copy', 'move') and not rg['pl'].get('p'):
+                    dr = self.single_def(rg['pl']['l'])
+                    if dr and dr[0] == 'assign' and dr[2]['rv']['k'] == 'ref' and not dr[2]['rv']['pl'].get('p'):
+                        rg = {'k': 'copy', 'pl': dr[2]['rv']['pl']}
+                r = self._range_arg(rg)
+                it = self.term_op(x['args'][1])
+                if r is not None and it is not None and r[0] in ('range', 'to', 'from'):
+                    tf = []
+                    if r[1] is not None:
+                        tf.append((r[1], it))
+                    if r[2] is not None:
+                        tf.append((tadd(it, 1), r[2]))
+                    if tf:
+                        return ('FACTS', tf, [], False)
             if cal in ('std::option::Option::<T>::map_or', 'std::option::Option::<T>::is_some_and') and len(x['args']) in (2, 3) \
                     and x['args'][0]['k'] in ('copy', 'move') and not x['args'][0]['pl'].get('p') and x['args'][-1]['k'] in ('copy', 'move') \
                     and not x['args'][-1]['pl'].get('p') and (len(x['args']) == 2 or (x['args'][1]['k'] == 'const' and x['args'][1].get('int') == '0')):
@@ -1927,12 +2064,9 @@ class ZoneFn:
                 es = self.elem_sym_of_iter(x['args'][0])
                 ci = self.fd._closure_info(x['args'][1]['pl']['l'])
                 if es is not None and ci is not None:
-                    pr = self.closure_predicate(ci[0], ci[1], es)
-                    if pr is not None:
-                        op, a, b, neg = pr
-                        tf, ff = self._cmp_facts(op, a, b)
-                        if neg:
-                            tf, ff = ff, tf
+                    pf = self.closure_predicate_facts(ci[0], ci[1], es)
+                    if pf is not None:
+                        tf, ff = pf
                         if cal.endswith('::all'):
                             return ('FACTS', tf, [], False)
                         return ('FACTS', [], ff, False)
@@ -2205,7 +2339,19 @@ class ZoneFn:
         if t1[0] is None and t2[0] is not None and t1[1] <= t2[1] and t2[1] >= 0 and t1[1] <= 0:
             return True
         facts = list(self.facts_at(b)) + list(extra)
-        return dbm_entails(facts, t1, t2, self.sym_ub)
+        if dbm_entails(facts, t1, t2, self.sym_ub):
+            return True
+        # a value that never exceeds another one by construction (a quotient, a checked difference, the payload of `opt.map(|x| x / c)`)
+        cur, hops = t1, 0
+        while cur[0] is not None and cur[0] in self.sym_le and hops < 6:
+            nx = self.sym_le[cur[0]]
+            cur = (nx[0], nx[1] + cur[1])
+            hops += 1
+            if cur[0] == t2[0]:
+                return cur[1] <= t2[1]
+            if not self.unstable(cur) and dbm_entails(facts, cur, t2, self.sym_ub):
+                return True
+        return False
 
     def lower_bound(self, t, b, extra=()):
         if t is None:
